@@ -675,6 +675,28 @@ class Gen:
                     L.append(line)
                     flat.apply(line.split("|"))
                     ask_family()
+        # TWO ARITIES, ONE PROVIDED by construction (seeded change o09a: `unregister` zeroing the cross-arity `_provided` count when the
+        # table of the arity just touched is trimmed away — a live lower-arity registration for the same provided interface lost its
+        # extendor entry; the random keys keep the arity of the live key they derive from): register under arity 1 and arity 3 for one
+        # provided interface, remove the arity-3 one (the trailing tables go), ask for the survivor through every query and the listing
+        ra_ = rnd.randrange(nr)
+        pa_ = rnd.choice(ifaces)
+        lo_, hi_ = [rnd.choice(specs_all)], [rnd.choice(specs_all) for _ in range(3)]
+        na_, nb_ = rnd.choice(NAMES), rnd.choice(NAMES)
+        va_, vb_ = val(), val()
+        for line in ("reg|%d|%s|%d|%s|%d %d" % (ra_, sreq(lo_), pa_, na_, va_[0], va_[1]),
+                     "reg|%d|%s|%d|%s|%d %d" % (ra_, sreq(hi_), pa_, nb_, vb_[0], vb_[1])):
+            L.append(line)
+            flat.apply(line.split("|"))
+        live.append((tuple(lo_), pa_))
+        emit_queries(rnd.choice(sorted(rdown(ra_))), lo_, pa_, na_, pa_)
+        line = "unreg|%d|%s|%d|%s|N" % (ra_, sreq(hi_), pa_, nb_)
+        L.append(line)
+        flat.apply(line.split("|"))
+        for q_ in sorted(rdown(ra_)):
+            emit_queries(q_, lo_, pa_, na_, pa_)
+        L.append("registered|%d|%s|%d|%s" % (ra_, sreq(lo_), pa_, na_))
+        L.append("allreg|%d" % ra_)
         W = P["weights"]        # reg unreg sub unsub rbases rebuild clone
         kinds = ["reg", "unreg", "sub", "unsub", "rbases", "rebuild", "clone"]
         nsteps = rnd.randint(*(P.get("steps_big", (10, 60)) if big else P.get("steps", (5, 30))))
